@@ -799,6 +799,13 @@ def run(ses, rep):
                 rep.add(oid, status, v)
 
 
+def fallback(rep):
+    """kernels undecided: the diff battery is run; only a failing concrete oracle is reported"""
+    for f in battery()[:4]:
+        _, sc, v, rec = f
+        rep.add(f"battery/{sc}", rep.violation({"obligation": "battery-after-undecided-kernel", "scenario": sc}, {"what": "kernel undecided; diff battery", "observed": v, "scenario": sc, **rec}), v)
+
+
 def replay(path):
     try:
         r = json.load(open(path)).get("replay", {})
